@@ -267,15 +267,12 @@ func indexInBounds(ia ssa.Instruction, s ssa.Value, idx ssa.Value) (bool, string
 	facts := ssax.FactsAt(ia)
 	isLenOf := func(v ssa.Value, path string) bool {
 		call, ok := ssax.Strip(v).(*ssa.Call)
+		if syn, isSyn := v.(*ssax.Synth); isSyn {
+			return syn.P == "len("+path+")"
+		}
 		return ok && ssax.IsBuiltin(call, "len") && ssax.Path(call.Call.Args[0]) == path
 	}
-	lenArg := func(v ssa.Value) (string, bool) {
-		call, ok := ssax.Strip(v).(*ssa.Call)
-		if ok && ssax.IsBuiltin(call, "len") {
-			return ssax.Path(call.Call.Args[0]), true
-		}
-		return "", false
-	}
+	lenArg := lenArgPath
 	if k, isConst := ssax.ConstInt(idx); isConst {
 		for _, f := range facts {
 			x, y, op := f.X, f.Y, f.Op
@@ -483,6 +480,13 @@ func responsePath(facts []ssax.Fact, path string) bool {
 }
 
 func lenArgPath(v ssa.Value) (string, bool) {
+	// a fact operand translated from a caller / helper: its path is the text `len(<path>)`
+	if syn, ok := v.(*ssax.Synth); ok {
+		if strings.HasPrefix(syn.P, "len(") && strings.HasSuffix(syn.P, ")") {
+			return syn.P[4 : len(syn.P)-1], true
+		}
+		return "", false
+	}
 	call, ok := ssax.Strip(v).(*ssa.Call)
 	if ok && ssax.IsBuiltin(call, "len") {
 		return ssax.Path(call.Call.Args[0]), true
